@@ -97,9 +97,15 @@ package datatypes
 //@   ensures[only-this-pack]  forall q *model.PushPullPack :: q != ppp ==> len(q.Operations) == old(len(q.Operations))
 //@   modifies model.PushPullPack.Operations
 
+// GetMeta exports key, type, DUID and the COMPLETE operation identifier (C10): `meta` is the
+// local struct handed to json.Marshal.
 //@ func (*BaseDatatype).GetMeta
 //@   mode math
-//@   requires its.ctx != nil
+//@   props C10
+//@   requires its.ctx != nil && its.opID != nil
+//@   ensures[exports-identity] meta.Key == its.Key && meta.DUID == its.id && meta.TypeOf == its.TypeOf
+//@   ensures[exports-whole-opid] meta.OpID != nil && meta.OpID.Seq == its.opID.Seq && meta.OpID.Lamport == its.opID.Lamport && meta.OpID.Era == its.opID.Era && meta.OpID.CUID == its.opID.CUID
+//@   ensures[state-untouched] its.opID == old(its.opID) && its.opID.Seq == old(its.opID.Seq)
 //@   modifies G:lastMarshaled
 
 //@ func (*TransactionDatatype).ResetTransaction
